@@ -8,14 +8,17 @@ structure St where
   q : Q := new 1 0
   now : Nat := 1000
 
-def expOf : String → Option Nat
+/-- `soon` = a deadline no run of ordinary ops reaches (each op advances the clock by 1000, a case has < 10^4 ops) but one
+    `age` op (+10^8) passes; `future` and the `huge` in-flight expiry stay ahead of any number of `age` ops of a case -/
+def expOf (now : Nat) : String → Option Nat
   | "past" => some 1
-  | "future" => some 1000000000000
+  | "future" => some 100000000000000
+  | "soon" => some (now + 10000000)
   | _ => none
 
 def ieOf : String → Nat
   | "tiny" => 1
-  | "huge" => 1000000000
+  | "huge" => 1000000000000
   | _ => 0
 
 def expClass (now : Nat) (e : Elem) : String :=
@@ -48,7 +51,7 @@ def step (st : St) (line : String) : St × String :=
   | ["new", max, ie] => ({ q := new (natOf max) (ieOf ie), now := 1000 }, "ok")
   | ["init", clean, limit] => ({ st1 with q := st.q.init (clean == "1") (natOf limit) }, "ok")
   | ["add", tag, qos, exp, size] =>
-    let e : Elem := { tag := natOf tag, pub := true, id := 0, qos := natOf qos, exp := expOf exp, size := natOf size }
+    let e : Elem := { tag := natOf tag, pub := true, id := 0, qos := natOf qos, exp := expOf now exp, size := natOf size }
     let (q', evs) := st.q.add now e
     ({ st1 with q := q' }, ("ok " ++ showEvs pnow evs).trimAscii.toString)
   | ["read", pids] =>
@@ -68,6 +71,7 @@ def step (st : St) (line : String) : St × String :=
     let (q', b) := st.q.replace e
     ({ st1 with q := q' }, if b then "replaced" else "notfound")
   | ["close"] => ({ st1 with q := st.q.close }, "ok")
+  | ["age"] => ({ st with now := now + 100000000 }, "ok")
   | _ => (st, "bad-op")
 
 end Driver.Queue
